@@ -82,14 +82,16 @@ impl<'a> SqlLexer<'a> {
     }
 
     pub fn next_token(&mut self) -> SqlTokenData {
-        // 如果在多行注释状态中，继续处理注释
-        if self.state == LexerState::LongComment(0) {
-            return self.scan_block_comment_continue();
-        }
-
+        // End of input comes first: an unterminated block comment keeps its state
+        // for the next line, but this line is finished.
         if self.reader.is_eof() {
             self.reader.reset_buff();
             return SqlTokenData::new(SqlTokenKind::TkEof, self.reader.current_range());
+        }
+
+        // 如果在多行注释状态中，继续处理注释
+        if self.state == LexerState::LongComment(0) {
+            return self.scan_block_comment_continue();
         }
 
         self.reader.reset_buff();
@@ -472,6 +474,32 @@ mod tests {
                 return token;
             }
         }
+    }
+
+    #[test]
+    fn test_unterminated_block_comment_ends_line() {
+        // Code blocks are lexed line by line: an open block comment
+        // must end the line and carry its state to the next one.
+        let mut lexer = SqlLexer::new("SELECT /* open");
+        let tokens = lexer.tokenize();
+        assert_eq!(tokens.last().unwrap().kind, SqlTokenKind::TkBlockComment);
+        assert_eq!(lexer.get_state(), LexerState::LongComment(0));
+
+        let mut reader = Reader::new("still open");
+        reader.reset_buff();
+        let mut lexer = SqlLexer::new_with_state(reader, LexerState::LongComment(0));
+        let tokens = lexer.tokenize();
+        assert_eq!(tokens.len(), 1);
+        assert_eq!(tokens[0].kind, SqlTokenKind::TkBlockComment);
+        assert_eq!(lexer.get_state(), LexerState::LongComment(0));
+
+        let mut reader = Reader::new("closed */ SELECT");
+        reader.reset_buff();
+        let mut lexer = SqlLexer::new_with_state(reader, LexerState::LongComment(0));
+        let tokens = lexer.tokenize();
+        assert_eq!(tokens[0].kind, SqlTokenKind::TkBlockComment);
+        assert_eq!(tokens.last().unwrap().kind, SqlTokenKind::TkKeyword);
+        assert_eq!(lexer.get_state(), LexerState::Normal);
     }
 
     #[test]
